@@ -816,3 +816,9 @@ func splitDiff(k string) (x, y string, ok bool) {
 	}
 	return "", "", false
 }
+
+// ProveLeqAt: a <= b follows from the comparisons that dominate instruction at.
+func ProveLeqAt(fn *ssa.Function, at ssa.Instruction, a, b ssa.Value) bool {
+	f := factsAt(fn, at)
+	return f.leq(mkTerm(a), mkTerm(b))
+}
